@@ -22,6 +22,7 @@ func CorpusC02() []*Input {
 		{Steps: []Step{{Backs: seqBack(6, 1, "", false, "10.0.0.1", "10.0.0.1", "10.0.0.2")}, {Backs: seqBack(6, 1, "", false, "10.0.0.1", "10.0.0.1", "10.0.0.3")}}},
 	}
 	in = append(in, corpusWeights()...)
+	in = append(in, corpusShards()...)
 	in = append(in, corpusGenerations()...)
 	in = append(in, corpusLinked()...)
 	return append(in, corpusCerts()...)
@@ -107,6 +108,32 @@ func linked(h HostSpec, strict bool) *Input {
 	}}
 }
 
+// corpusShards: backend shards (seeded/C11-shrink-stale-shard-copy): backend app is loaded, then
+// re-notified without change while nothing else of its shard changes, then another backend of
+// the same shard is added (reload: the shard file is rewritten), then app gets an endpoint that
+// fits: it must still be in the slots the reload left, and those must honour min-free / increment.
+func corpusShards() []*Input {
+	var out []*Input
+	for _, shards := range []int{1, 3, 8} {
+		mk := func(ips ...string) []BackSpec { return seqBack(2, 4, "", false, ips...) }
+		var others []BackSpec
+		for i := 1; i <= 4; i++ {
+			others = append(others, BackSpec{NS: "d", Name: fmt.Sprintf("b%d", i), Port: "8080", Dyn: true, MinFree: 1, Block: 2, InitW: 1,
+				Eps: []EpSpec{{IP: fmt.Sprintf("10.0.7.%d", i), Port: 80, Weight: 1}}})
+		}
+		out = append(out, &Input{Shards: shards, Steps: []Step{
+			{Backs: mk("10.0.0.1", "10.0.0.2")},
+			{Backs: mk("10.0.0.1", "10.0.0.2")},
+			{Backs: others},
+			{Backs: mk("10.0.0.1", "10.0.0.2", "10.0.0.3")},
+			{Backs: mk("10.0.0.1", "10.0.0.2", "10.0.0.3")},
+			{Backs: others[:2]},
+			{Backs: mk("10.0.0.1", "10.0.0.3")},
+		}})
+	}
+	return out
+}
+
 func corpusLinked() []*Input {
 	return []*Input{
 		linked(HostSpec{Name: "secure.local", Crt: "sec", Content: "sec-v1", AuthTLS: "ca-v1"}, false),
@@ -119,7 +146,7 @@ func corpusLinked() []*Input {
 
 // CorpusC11 holds fixed histories for C11.
 func CorpusC11() []*Input {
-	return append(corpusLinked(), []*Input{
+	return append(append(corpusShards(), corpusLinked()...), []*Input{
 		{Steps: []Step{{Backs: seqBack(2, 4, "", false, "10.0.0.1", "10.0.0.2")}, {Backs: seqBack(2, 4, "", false, "10.0.0.1", "10.0.0.2")},
 			{Backs: seqBack(2, 4, "", false, "10.0.0.1", "10.0.0.3", "10.0.0.4")}, {Backs: seqBack(2, 4, "", false, "10.0.0.4")}}},
 	}...)
